@@ -1,6 +1,6 @@
-(** C16 - lemmas about Model/K8sPolicy.v: the six refutation witnesses of [enforces], the reference with
-    no divergence switched on is the reference, and the compiler-correctness lemmas behind
-    [enforces_partial] (one policy chain, one side, on the fragment of DESIGN.md appendix D). *)
+(** C16 - lemmas about Model/K8sPolicy.v: the full statement [enforces], its six refutation witnesses, and
+    their independence (each is explained by exactly its own divergence switch).  The positive half,
+    [enforces_partial] (compiler correctness on the fragment of DESIGN.md appendix D), is in K8sPolicyFragP.v. *)
 From Coq Require Import List Ascii String NArith Bool Lia.
 From Galaxy.Base Require Import Strs.
 From Galaxy.Model Require Import Nets Netfilter Policy K8sPolicy.
